@@ -135,9 +135,9 @@ func parseScenario(args []string) (wait int, evs []srvEvent) {
 // ---- scripted connection -------------------------------------------------
 
 var errScripted = errors.New("scripted read error")
-var errScriptEnd = errors.New("end of script")
+var srv_errScriptEnd = errors.New("end of script")
 
-type scriptConn struct {
+type srv_scriptConn struct {
 	mu         sync.Mutex
 	events     []srvEvent
 	pos        int
@@ -155,16 +155,16 @@ type scriptConn struct {
 	bufReuse   int
 }
 
-func newScriptConn(evs []srvEvent) *scriptConn {
-	return &scriptConn{events: evs, progress: make(chan struct{}), closeCh: make(chan struct{}), closeReq: make(chan struct{}, 1)}
+func newScriptConn(evs []srvEvent) *srv_scriptConn {
+	return &srv_scriptConn{events: evs, progress: make(chan struct{}), closeCh: make(chan struct{}), closeReq: make(chan struct{}, 1)}
 }
 
-func (c *scriptConn) bump() { // c.mu held
+func (c *srv_scriptConn) bump() { // c.mu held
 	close(c.progress)
 	c.progress = make(chan struct{})
 }
 
-func (c *scriptConn) ReadFrom(b []byte) (int, net.Addr, error) {
+func (c *srv_scriptConn) ReadFrom(b []byte) (int, net.Addr, error) {
 	c.mu.Lock()
 	if len(b) > 0 {
 		if c.lastBuf == &b[0] {
@@ -182,7 +182,7 @@ func (c *scriptConn) ReadFrom(b []byte) (int, net.Addr, error) {
 		c.finished, c.exhausted = true, true
 		c.bump()
 		c.mu.Unlock()
-		return 0, nil, errScriptEnd
+		return 0, nil, srv_errScriptEnd
 	}
 	ev := c.events[c.pos]
 	c.pos++
@@ -226,7 +226,7 @@ func (c *scriptConn) ReadFrom(b []byte) (int, net.Addr, error) {
 
 // waitReads blocks until `want` datagrams have been delivered or the loop has
 // been handed an error; false = bound exceeded.
-func (c *scriptConn) waitReads(want int, bound time.Duration) bool {
+func (c *srv_scriptConn) waitReads(want int, bound time.Duration) bool {
 	t := time.NewTimer(bound)
 	defer t.Stop()
 	for {
@@ -245,8 +245,8 @@ func (c *scriptConn) waitReads(want int, bound time.Duration) bool {
 	}
 }
 
-func (c *scriptConn) WriteTo(b []byte, a net.Addr) (int, error) { return len(b), nil }
-func (c *scriptConn) Close() error {
+func (c *srv_scriptConn) WriteTo(b []byte, a net.Addr) (int, error) { return len(b), nil }
+func (c *srv_scriptConn) Close() error {
 	c.mu.Lock()
 	defer c.mu.Unlock()
 	c.closeCalls++
@@ -256,10 +256,10 @@ func (c *scriptConn) Close() error {
 	}
 	return nil
 }
-func (c *scriptConn) LocalAddr() net.Addr                { return &net.UDPAddr{IP: net.IPv4zero, Port: 67} }
-func (c *scriptConn) SetDeadline(t time.Time) error      { return nil }
-func (c *scriptConn) SetReadDeadline(t time.Time) error  { return nil }
-func (c *scriptConn) SetWriteDeadline(t time.Time) error { return nil }
+func (c *srv_scriptConn) LocalAddr() net.Addr                { return &net.UDPAddr{IP: net.IPv4zero, Port: 67} }
+func (c *srv_scriptConn) SetDeadline(t time.Time) error      { return nil }
+func (c *srv_scriptConn) SetReadDeadline(t time.Time) error  { return nil }
+func (c *srv_scriptConn) SetWriteDeadline(t time.Time) error { return nil }
 
 // ---- running one scenario against the real server --------------------------
 
@@ -530,7 +530,7 @@ func execServer(op string, args []string) string {
 
 // ---- generators ------------------------------------------------------------
 
-func genDUID(r *Rng) dhcpv6.DUID {
+func srv_genDUID(r *Rng) dhcpv6.DUID {
 	switch r.Intn(4) {
 	case 0:
 		return &dhcpv6.DUIDLLT{HWType: iana.HWTypeEthernet, Time: uint32(r.U64()), LinkLayerAddr: net.HardwareAddr(r.Bytes(6))}
@@ -552,9 +552,9 @@ var v6MsgTypes = []dhcpv6.MessageType{
 	dhcpv6.MessageTypeLeaseQuery, dhcpv6.MessageTypeLeaseQueryReply, dhcpv6.MessageTypeDHCPv4Query, dhcpv6.MessageTypeDHCPv4Response,
 }
 
-// genMsg6 builds a valid DHCPv6 message with the library's own types:
+// srv_genMsg6 builds a valid DHCPv6 message with the library's own types:
 // every client/server message type, the usual options, 0..3 relay levels.
-func genMsg6(r *Rng) (dhcpv6.DHCPv6, string) {
+func srv_genMsg6(r *Rng) (dhcpv6.DHCPv6, string) {
 	m := &dhcpv6.Message{MessageType: v6MsgTypes[r.Intn(len(v6MsgTypes))]}
 	copy(m.TransactionID[:], r.Bytes(3))
 	if r.Chance(1, 6) {
@@ -567,9 +567,9 @@ func genMsg6(r *Rng) (dhcpv6.DHCPv6, string) {
 	for i := 0; i < nopt; i++ {
 		switch r.Intn(12) {
 		case 0:
-			m.AddOption(dhcpv6.OptClientID(genDUID(r)))
+			m.AddOption(dhcpv6.OptClientID(srv_genDUID(r)))
 		case 1:
-			m.AddOption(dhcpv6.OptServerID(genDUID(r)))
+			m.AddOption(dhcpv6.OptServerID(srv_genDUID(r)))
 		case 2:
 			ia := &dhcpv6.OptIANA{T1: time.Duration(r.Intn(7200)) * time.Second, T2: time.Duration(r.Intn(7200)) * time.Second}
 			copy(ia.IaId[:], r.Bytes(4))
@@ -630,7 +630,7 @@ func genBad6(r *Rng) []byte {
 	case 1:
 		return append([]byte{byte(12 + r.Intn(2))}, r.Bytes(r.Range(0, 32))...) // relay header cut short
 	case 2:
-		d, _ := genMsg6(r)
+		d, _ := srv_genMsg6(r)
 		b := d.ToBytes()
 		if len(b) > 5 {
 			return b[:r.Range(4, len(b)-1)] // cut inside the options
@@ -769,7 +769,7 @@ func genScenario(r *Rng, v6, thorough, inDomainOnly bool) (wait int, evs []srvEv
 			var t string
 			if v6 {
 				var d dhcpv6.DHCPv6
-				d, t = genMsg6(r)
+				d, t = srv_genMsg6(r)
 				data = d.ToBytes()
 			} else {
 				data, t = genGood4(r)
@@ -780,7 +780,7 @@ func genScenario(r *Rng, v6, thorough, inDomainOnly bool) (wait int, evs []srvEv
 			tagset["empty-read"] = true
 		case k < 78: // longer than the read buffer
 			if v6 {
-				d, _ := genMsg6(r)
+				d, _ := srv_genMsg6(r)
 				data = d.ToBytes()
 				if r.Bool() {
 					// one big trailing option crossing the 4096 boundary: the cut datagram is malformed
@@ -875,7 +875,7 @@ func enumServer(v6 bool) func(emit func(string)) {
 		var good, bad []byte
 		var goodCanon string
 		if v6 {
-			d, _ := genMsg6(r)
+			d, _ := srv_genMsg6(r)
 			good, bad = d.ToBytes(), []byte{1, 2}
 			goodCanon = hx(good)
 		} else {
